@@ -178,7 +178,10 @@ struct Rendered {
     rule_lines: Vec<(usize, usize)>,
 }
 
-fn render(spec: &LSpec, header: Option<&str>, quote: char, trailing_blank: bool, comments: bool) -> Rendered {
+/// The spellings lex allows for the two kinds of start-state declaration (`%s...` / `%x...`, either case).
+const DECL_KEYWORDS: [(&str, &str); 4] = [("%s", "%x"), ("%S", "%X"), ("%start", "%xclusive"), ("%State", "%Xstate")];
+
+fn render(spec: &LSpec, header: Option<&str>, quote: char, trailing_blank: bool, comments: bool, kw: usize) -> Rendered {
     let mut s = String::new();
     if let Some(h) = header {
         s.push_str(h);
@@ -189,7 +192,8 @@ fn render(spec: &LSpec, header: Option<&str>, quote: char, trailing_blank: bool,
         if comments {
             s.push_str("// a comment line\n");
         }
-        s.push_str(if *x { "%x " } else { "%s " });
+        s.push_str(if *x { DECL_KEYWORDS[kw % 4].1 } else { DECL_KEYWORDS[kw % 4].0 });
+        s.push(' ');
         state_spans.push((s.len(), s.len() + n.len()));
         s.push_str(n);
         if trailing_blank {
@@ -326,7 +330,27 @@ fn check_structure_inner(ctx: &Ctx, spec: &LSpec, r: &Rendered, flags: Option<Le
             }
         }
     }
+    // the kind (inclusive / exclusive) of a declared start state has no accessor: it shows in which
+    // rules are active while the state is current, so every short input is lexed and compared with
+    // the reference lexer run on the abstract specification
+    let Some(res) = spec.rules.iter().map(|r| RegexBuilder::new(&format!("\\A(?:{})", r.re)).multi_line(true).dot_matches_new_line(true).build().ok()).collect::<Option<Vec<_>>>() else { return };
+    let ids: Vec<Option<u32>> = rules.iter().map(|r| r.name().and_then(|_| r.tok_id())).collect();
+    for input in BEHAVIOUR_INPUTS.iter() {
+        st.comparisons += 1;
+        let exp = ref_lex(spec, &res, &ids, input);
+        let got = real_lex(&ld, input);
+        if exp != got {
+            ctx.violation(
+                "c11-structure-behaviour",
+                &format!("input \"{}\" lexes to {:?} but the specification as written (start states and their kinds, prefixes, targets) gives {:?}\n{}", esc(input), got, exp, r.text),
+                case(),
+            );
+            break;
+        }
+    }
 }
+
+static BEHAVIOUR_INPUTS: std::sync::LazyLock<Vec<String>> = std::sync::LazyLock::new(|| strings(&["a", "b"], 4));
 
 // ---------------- (d) error spans
 fn check_error_spans(ctx: &Ctx, header: Option<&str>, st: &mut Stats) {
@@ -542,10 +566,12 @@ pub fn run(ctx: Ctx) -> i32 {
             .map(|s| {
                 let mut st = Stats::default();
                 for (hi, h) in headers.iter().enumerate() {
-                    for quote in ['\'', '"'] {
-                        for trailing in [false, true] {
+                    for (qi, quote) in ['\'', '"'].into_iter().enumerate() {
+                        for (ti, trailing) in [false, true].into_iter().enumerate() {
                             let comments = hi == 2;
-                            let r = render(s, *h, quote, trailing, comments);
+                            // every spelling of the declaration keywords occurs among the twelve
+                            // renderings of each specification
+                            let r = render(s, *h, quote, trailing, comments, hi * 4 + qi * 2 + ti);
                             if h.is_some() {
                                 st.with_header += 1;
                             }
@@ -553,7 +579,7 @@ pub fn run(ctx: Ctx) -> i32 {
                             if hi == 0 && !trailing {
                                 let mut lf = lrlex::DEFAULT_LEX_FLAGS;
                                 lf.allow_wholeline_comments = Some(true);
-                                let r2 = render(s, None, quote, false, true);
+                                let r2 = render(s, None, quote, false, true, qi + 1);
                                 check_structure(&ctx, s, &r2, Some(lf), &mut st);
                             }
                         }
@@ -574,7 +600,7 @@ pub fn run(ctx: Ctx) -> i32 {
         machinery("vacuous exploration (C11)");
     }
     ctx.sample(json!({"part": "denotation", "rule": "\\q\\ <", "denotes": "q <", "inputs": "every string of <= 3 symbols over a 14-symbol alphabet"}));
-    ctx.sample(json!({"part": "structure", "spec": render(&specs[777], headers[1], '"', true, false).text}));
+    ctx.sample(json!({"part": "structure", "spec": render(&specs[777], headers[1], '"', true, false, 1).text}));
     let cov = json!({
         "states": total.specs,
         "transitions": total.comparisons + total.span_checks,
